@@ -58,12 +58,15 @@ def skeleton_line(name, params, rec, rho, d_attrs):
         return 'mst_events %s %d %d %d' % (float(rho).hex(), k1, rm1, k2)
     if name == 'mwem' and params['noise'] != 'laplace':
         return 'mwem_events %s %s %d %d 1' % (float(rho).hex(), (0.9).hex(), params['rounds'], 1 if params['bounded'] else 0)
+    if name == 'mwem':
+        return 'mwem_lap_events %s %s %d %d' % (float(rho).hex(), (0.9).hex(), params['rounds'], 1 if params['bounded'] else 0)     # rho = epsilon here (pure accounting)
     if name == 'adagrid':
         n1 = next((i for i, k in enumerate(kinds) if k == 'select'), len(kinds))
         rm1 = sum(1 for k in kinds if k == 'select')
         n3 = len(kinds) - n1 - rm1
-        r = float(rho) / 3
-        return 'adagrid_events %s %s %s %d %d %d' % (r.hex(), r.hex(), r.hex(), n1, rm1, n3)
+        sp = params.get('split') or [1, 1, 1]
+        r1, r2, r3 = [float(rho) * float(x) / float(sum(sp)) for x in sp]      # fractions of the budget: the split normalised to sum one
+        return 'adagrid_events %s %s %s %d %d %d' % (r1.hex(), r2.hex(), r3.hex(), n1, rm1, n3)
     if name == 'aim':
         rounds = params.get('rounds') or 16 * d_attrs
         d = next((i for i, k in enumerate(kinds) if k == 'select'), len(kinds))
@@ -102,8 +105,13 @@ def main(chk):
             params = dict(params, workload=[tuple(c) for c in itertools.combinations(names, 2)])
         else:
             data, names, sizes = dprec.make_data(rng, with_size1=(rng.random() < 0.15))
+            directed_targets = (name == 'adagrid' and len(pend) % 2 == 0)
+            while directed_targets and len(names) < 3:
+                data, names, sizes = dprec.make_data(rng)
             params = dprec.gen_params(rng, name, names)
-        info = dict(mechanism=name, params={k: (v if not isinstance(v, list) else [list(x) for x in v]) for k, v in params.items()}, attrs=names, sizes=sizes, records=int(data.df.shape[0]))
+            if directed_targets:
+                params['targets'] = [names[-1]]            # with targets step 1 measures a downward closure that is larger than the list it starts from
+        info = dict(mechanism=name, params={k: (v if not isinstance(v, list) else [(list(x) if isinstance(x, (list, tuple)) else x) for x in v]) for k, v in params.items()}, attrs=names, sizes=sizes, records=int(data.df.shape[0]))
         res = dprec.pair_of_runs(rng, name, params, data, seed=rng.randrange(2 ** 31))
         info['neighbour'] = res['neighbour']
         chk.count('mechanism.' + name); chk.count('adjacency.' + ('replace' if res['bounded'] else 'add/remove'))
@@ -119,6 +127,22 @@ def main(chk):
             chk.violation(dict(kind='diverged', mechanism=name), '%s: the run on the neighbour does not perform the same releases (%s)' % (name, detail if costs is None else (res['rec2'].diverged or 'different number of events')),
                           dict(info, events=dprec.describe_events(res['rec1']), events_neighbour=dprec.describe_events(res['rec2'])), found_input=True)
             continue
+        # the noise scales are part of what is released: given identical earlier releases they must not depend on the dataset
+        sc1 = [e['scale'] for e in res['rec1'].events if e['kind'] != 'select']; sc2 = [e['scale'] for e in res['rec2'].events if e['kind'] != 'select']
+        if any(abs(a - b) > 1e-9 * abs(a) for a, b in zip(sc1, sc2)):
+            chk.violation(dict(kind='scale-depends-on-data', mechanism=name), '%s: with identical earlier releases the noise scale of a later release differs between the two neighbouring datasets (an uncharged data-dependent decision)' % name,
+                          dict(info, scales=sc1[:40], scales_neighbour=sc2[:40]), found_input=True)
+            continue
+        if name == 'aim' and rng.random() < 0.7:
+            # the same must hold for ANY dataset of the same shape (the budget schedule is a function of the releases alone): a far dataset makes a
+            # data-dependent decision visible that a single changed record only flips near its threshold
+            rec3, err3 = dprec.forced_run(name, params, dprec.far_dataset(rng, data), res['rec1'].seed, res['rec1'], res['bounded'])
+            chk.count('aim.far-dataset-forced-run')
+            sc3 = [e['scale'] for e in rec3.events if e['kind'] != 'select']
+            if err3 is None and (len(sc3) != len(sc1) or any(abs(a - b) > 1e-9 * abs(a) for a, b in zip(sc1, sc3))):
+                chk.violation(dict(kind='scale-depends-on-data', mechanism=name), 'aim: forced to the same releases and selections, another dataset of the same shape gets a different sequence of noise scales / number of rounds: the budget schedule depends on the private data directly',
+                              dict(info, scales=sc1[:40], scales_other_dataset=sc3[:40]), found_input=True)
+                continue
         spent = float(sum(costs))
         info['spent'] = spent; info['events'] = [[k, c] for k, c in detail][:80]
         misuse = [e.get('misuse') for e in res['rec1'].events if e.get('misuse')]
@@ -149,8 +173,8 @@ def main(chk):
                 ms, mk = [out], []
                 continue
             ev = [(out[i], out[i + 1], out[i + 2]) for i in range(0, len(out), 3)]
-            mk = ['select' if k == 1.0 else 'normal' for k, _, _ in ev]
-            ms = [s for k, s, _ in ev if k == 0.0]
+            mk = [{1.0: 'select', 0.0: 'normal', 2.0: 'laplace'}[k] for k, _, _ in ev]
+            ms = [s for k, s, _ in ev if k != 1.0]
             if mk == kinds and len(ms) == len(scales) and all(abs(a - b) <= 1e-9 * abs(b) for a, b in zip(scales, ms)):
                 ok = True
                 break
